@@ -1,4 +1,5 @@
 import Sebuf.OaEmit
+import Sebuf.OpenApi
 import Sebuf.Lemmas.OaComp
 import Sebuf.Route
 import Sebuf.Props.C03
@@ -143,5 +144,70 @@ theorem user_error_shadows_builtin :
     lookupKV "Error".toList (components rqE 8 svcE) = some ".p.Error".toList := by decide
 
 end Witness
+
+/-- **the reference check is sound**: when `OpenApi.check` reports `refsResolve` on a parsed document, every
+`$ref` AND every `discriminator.mapping` target of every component schema and of every operation schema
+names an existing component (the harness runs `check` on every REAL document, in every format). -/
+theorem check_refs_sound (doc : Json) (h : (OpenApi.check doc).refsResolve = true) :
+    ∀ s ∈ (OpenApi.components doc).map Prod.snd ++ (OpenApi.operations doc).flatMap (fun o => OpenApi.opSchemas o.2.2),
+      (∀ r ∈ Schema.refs s, Schema.refResolves (OpenApi.components doc) r = true) ∧
+      (∀ r ∈ OpenApi.mappingTargets s, Schema.refResolves (OpenApi.components doc) r = true) := by
+  intro s hs
+  simp only [OpenApi.check, List.isEmpty_iff, List.filter_eq_nil_iff, List.mem_append, List.mem_flatMap,
+    Bool.not_eq_true'] at h hs
+  constructor
+  · intro r hr
+    have := h r (Or.inl ⟨s, hs, hr⟩)
+    simpa using this
+  · intro r hr
+    have := h r (Or.inr ⟨s, hs, hr⟩)
+    simpa using this
+
+/-- a mapping target is a reference although no `$ref` keyword carries it: a schema whose `oneOf` resolves
+but whose `discriminator.mapping` names a missing component is flagged. -/
+example :
+    let ev : Json := .obj [("oneOf".toList, .arr [.obj [("$ref".toList, .str "#/components/schemas/E_a".toList)]]),
+      ("discriminator".toList, .obj [("propertyName".toList, .str "t".toList),
+        ("mapping".toList, .obj [("a:b".toList, .str "#/components/schemas/E_a:b".toList)])])]
+    OpenApi.mappingTargets ev = ["#/components/schemas/E_a:b".toList] ∧ Schema.refs ev = ["#/components/schemas/E_a".toList] ∧
+    Schema.refResolves [("E_a".toList, .obj [])] "#/components/schemas/E_a:b".toList = false := by decide
+
+open OpenApi in
+theorem hasDup_false_nodup : ∀ (l : List Str), hasDup l = false → l.Nodup
+  | [], _ => List.nodup_nil
+  | x :: xs, h => by
+    simp only [hasDup, Bool.or_eq_false_iff] at h
+    refine List.nodup_cons.mpr ⟨?_, hasDup_false_nodup xs h.2⟩
+    intro hm
+    have : xs.contains x = true := List.contains_iff_mem.mpr hm
+    rw [this] at h; exact absurd h.1 (by decide)
+
+open OpenApi in
+/-- **the path-parameter check is sound**: when `check` reports `pathVarsDeclared`, in every operation the
+declared path parameters are pairwise distinct, are exactly the variables of the operation's path template,
+and each is marked required. -/
+theorem check_path_params_sound (doc : Json) (h : (OpenApi.check doc).pathVarsDeclared = true) :
+    ∀ o ∈ operations doc,
+      ((paramsIn "path" o.2.2).map fun p => strOf (field "name" p)).Nodup ∧
+      (∀ v ∈ extractPathParams o.1, v ∈ (paramsIn "path" o.2.2).map fun p => strOf (field "name" p)) ∧
+      (∀ d ∈ (paramsIn "path" o.2.2).map (fun p => strOf (field "name" p)), d ∈ extractPathParams o.1) ∧
+      (∀ p ∈ paramsIn "path" o.2.2, isTrue (field "required" p) = true) := by
+  intro o ho
+  simp only [OpenApi.check, List.all_eq_true] at h
+  have := h o ho
+  simp only [Bool.and_eq_true, Bool.not_eq_true', List.all_eq_true, List.contains_iff_mem] at this
+  obtain ⟨⟨⟨h1, h2⟩, h3⟩, h4⟩ := this
+  exact ⟨hasDup_false_nodup _ h1, h2, h3, h4⟩
+
+open OpenApi in
+/-- **parameter names are unique per location** when `check` reports `paramNamesUnique`. -/
+theorem check_param_names_sound (doc : Json) (h : (OpenApi.check doc).paramNamesUnique = true) :
+    ∀ o ∈ operations doc, ∀ loc ∈ ["path", "query", "header", "cookie"],
+      ((paramsIn loc o.2.2).map fun p => strOf (field "name" p)).Nodup := by
+  intro o ho loc hl
+  simp only [OpenApi.check, List.all_eq_true] at h
+  have := h o ho loc hl
+  simp only [Bool.not_eq_true'] at this
+  exact hasDup_false_nodup _ this
 
 end Sebuf.C18
